@@ -1547,9 +1547,12 @@ func (e *Entry) dup() *Entry {
 		}
 	}
 
+	// merge appends to these slices: the copy needs backing arrays of its
+	// own or two copies overwrite each other's appended elements.
+	ne.Exts = append([]*Statement(nil), e.Exts...)
 	ne.Extra = make(map[string][]interface{})
 	for k, v := range e.Extra {
-		ne.Extra[k] = v
+		ne.Extra[k] = append([]interface{}(nil), v...)
 	}
 
 	// What a deviation or an augment may later change in place must not be
